@@ -62,7 +62,7 @@ fn main() {
                 "cm" => e3::cm(&mut rec, &mut rng, thorough),
                 "enc" => e3::enc(&mut rec, &mut rng, thorough),
                 "repair" => { e3::repair(&mut rec, &mut rng, thorough); e3::repair_plan_history(&mut rec, &mut rng, thorough); e3::repair_long_windows(&mut rec, &mut rng, thorough); }
-                "object" => { e3::object(&mut rec, &mut rng, thorough); e3::object_many_symbols(&mut rec, &mut rng, thorough); }
+                "object" => { e3::object(&mut rec, &mut rng, thorough); e3::object_many_symbols(&mut rec, &mut rng, thorough); e3::object_huge_decoders(&mut rec, &mut rng, thorough); }
                 "decblk" => { e3::decblk(&mut rec, &mut rng, thorough); e3::decblk_directed(&mut rec, &mut rng, thorough); e3::decblk_malformed(&mut rec, &mut rng, thorough); e3::decblk_flooded(&mut rec, &mut rng, thorough); }
                 "decobj" => e3::decobj(&mut rec, &mut rng, thorough),
                 "inter" => e3::inter(&mut rec, &mut rng, thorough),
